@@ -12,6 +12,7 @@ EXPLANATION = (
     "maps), transitivity, stability of the sort and the exact SKIP/LIMIT positions — all value-level."
     " C20.5: (Int, Int) ends in the exact i64 comparison and (Bool, Bool) in the bool comparison."
     " C20.6: in parse_order_by the direction stored in an item is assigned on every path of the current loop iteration."
+    " C20.8: compile_return_plan and compile_with_plan build the Distinct node before the OrderBy / Skip / Limit nodes, so the window is cut from the distinct rows. C20.7: every Plan::Skip handler (each Skip arm of a switch over Plan in the executor, and execute_skip) uses no end-removing primitive and every Plan::Limit handler no front-removing one."
 )
 
 VAL = "nervusdb_query::executor::core_types::Value"
@@ -34,6 +35,8 @@ def run(ctx):
     ctx.rule("C20.2", "value_order_rank is total, constant per type class, ordered Map < Node < Relationship < List < Path < String < Boolean < Number < null")
     ctx.rule("C20.3", "order_compare_non_null dispatches (A, B) and (B, A) to the same comparison procedure for every pair of non-null variants")
     ctx.rule("C20.4", "the ORDER BY sort compares through order_compare")
+    window_rule(ctx)
+    distinct_order_rule(ctx)
     vadt = ctx.adt(VAL)
     dmap = {v["name"]: v["discr"] for v in vadt["variants"]}
     discr_of = dict(dmap)
@@ -184,3 +187,81 @@ def run(ctx):
         ctx.oblige(not carried, "C20.6", "parse_order_by:direction-carried-over#%d" % k,
                    "the direction of a sort key can come from the previous loop iteration (%s): a key written without ASC / DESC inherits the previous key's "
                    "direction, so `ORDER BY a DESC, b` sorts b descending" % carried, pb.file)
+
+
+PLAN = "nervusdb_query::executor::plan_types::Plan"
+BACK = ("::truncate", "Iterator::take", "::pop", "::pop_back", "Iterator::take_while", "::step_by")
+FRONT = ("Iterator::skip", "::drain", "Iterator::skip_while", "::pop_front", "::remove", "::swap_remove")
+
+
+def window_rule(ctx, rid="C20.7"):
+    """SKIP removes rows from the front and LIMIT from the back, wherever a Plan::Skip / Plan::Limit arm slices rows itself"""
+    from .. import tables
+    F = ctx.facts
+    ctx.rule(rid, "every Plan::Skip arm (and execute_skip) uses no end-removing primitive (truncate / take / pop) and every Plan::Limit arm (and execute_limit) no "
+             "front-removing one (skip / drain / remove): `skip` that keeps the right number of rows but drops them from the wrong end returns the wrong window")
+    adt = ctx.adt(PLAN)
+    names = [v["name"] for v in adt["variants"]]
+    n = 0
+
+    def judge(where, kind, calls, loc):
+        bad = [c for c in calls if c.name.endswith(BACK if kind == "Skip" else FRONT) or c.declared.endswith(BACK if kind == "Skip" else FRONT)]
+        ctx.instance(rid, "%s %s: %d calls, wrong-end primitives: %s" % (where, kind, len(calls), [c.name.split("::")[-1] for c in bad] or "none"))
+        for c in bad:
+            ctx.finding(rid, "%s:%s:%s:%s" % (rid, where, kind, c.name.split("::")[-1]),
+                        "%s handles %s with `%s`, which removes rows from the %s: the window has the right size but the wrong rows" %
+                        (where, kind.upper(), c.name.split("::")[-1], "end" if kind == "Skip" else "front"), c.loc())
+
+    for i, b in sorted(F.bodies.items()):
+        if not i.startswith("nervusdb_query::executor") or b.kind == "closure":
+            continue
+        sw = tables.enum_switch(b, PLAN, F)
+        if not sw:
+            continue
+        for vi, tb in sw[1].items():
+            if names[vi] not in ("Skip", "Limit"):
+                continue
+            region = tables.dominated_region(b, tb, sw[0])
+            calls = [b.call_at(x) for x in region if b.call_at(x) is not None]
+            n += 1
+            judge(i.split("::")[-1], names[vi], calls, b.file)
+    for fn, kind in (("nervusdb_query::executor::plan_tail::execute_skip", "Skip"), ("nervusdb_query::executor::plan_tail::execute_limit", "Limit")):
+        b = ctx.body(fn)
+        calls = list(b.calls())
+        for cb in F.closures_of(fn):
+            calls += list(cb.calls())
+        n += 1
+        judge(fn.split("::")[-1], kind, calls, b.file)
+    ctx.floor(rid, "Skip / Limit handlers inspected", n, 10)
+
+
+RW = "nervusdb_query::query_api::return_with::"
+
+
+def distinct_order_rule(ctx, rid="C20.8"):
+    """the planner puts DISTINCT below ORDER BY / SKIP / LIMIT: the window is cut from the distinct rows"""
+    ctx.rule(rid, "in compile_return_plan / compile_with_plan the Plan::Distinct node is built before the OrderBy / Skip / Limit nodes (it becomes their input), "
+             "so duplicates do not take up positions of the SKIP / LIMIT window")
+    n = 0
+    for fn in (RW + "compile_return_plan", RW + "compile_with_plan"):
+        b = ctx.body(fn)
+        built = {}
+        for bi, blk in enumerate(b.blocks):
+            if b.is_cleanup(bi):
+                continue
+            for st in blk["s"]:
+                if st[0] == "a" and st[2][0] == "agg" and st[2][1] == "adt" and st[2][2] == PLAN and st[2][3] in ("Distinct", "OrderBy", "Skip", "Limit"):
+                    built.setdefault(st[2][3], []).append(bi)
+        short = fn.split("::")[-1]
+        ctx.oblige(all(k in built for k in ("Distinct", "Skip", "Limit", "OrderBy")), rid, "%s:%s:nodes" % (rid, short),
+                   "%s does not build all of Distinct / OrderBy / Skip / Limit (found %s)" % (short, sorted(built)), b.file)
+        for later in ("OrderBy", "Skip", "Limit"):
+            for d in built.get("Distinct", []):
+                for x in built.get(later, []):
+                    n += 1
+                    after = d in b.reachable([x])
+                    ctx.instance(rid, "%s: Distinct built %s %s" % (short, "after" if after else "before", later))
+                    ctx.oblige(not after, rid, "%s:%s:distinct-after-%s" % (rid, short, later),
+                               "%s wraps the %s node into Distinct: rows are sorted / sliced first and deduplicated afterwards, so `RETURN DISTINCT x ORDER BY x "
+                               "LIMIT 2` over [1,1,2,3] returns [1] instead of [1,2]" % (short, later), "%s:%d" % (b.file, b.line_of_block(d)))
+    ctx.floor(rid, "Distinct vs OrderBy / Skip / Limit construction pairs", n, 6)
